@@ -202,6 +202,35 @@ def cases(seed, tier):
                     grp = wire.frame(bytes([wire.MSG_GEX_GROUP]) + wire.mpint(pv) + wire.mpint(gv))
                     yield {'arch': arch, 'faults': [{'conn': conn, 'msg': midx, 'kind': 'replace', 'hex': grp.hex(), 'field': 'group_values', 'mut': 'p=%d g=%d' % (pv if pv < 1 << 20 else pv.bit_length(), gv if gv < 1 << 20 else gv.bit_length())}],
                            'opts': ['-n'], 'timeout': 2, 'net': {'rtt_us': 200, 'seg': {'mode': 'msg'}}, 'pseed': 1}
+    # well-framed packets (right length fields, padding, SSH-1 checksum) whose payload ends early: the framing layer accepts them, the
+    # message parsers have to cope
+    import struct as _struct
+    for arch in archs:
+        tr, _n, _ = transcript(arch)
+        rng = gen.case_rng(seed, ID, arch, 'reframed')
+        msgs = [(c, idx, tag, d) for c, idx, tag, d in tr if tag in ('kexinit', 'reply', 'group', 'ssh1_pubkey')]
+        if tier != 'thorough':
+            firsts = {}
+            for m in msgs:
+                firsts.setdefault(m[2], m)
+            msgs = list(firsts.values())
+        for conn, midx, tag, data in msgs:
+            if tag == 'ssh1_pubkey':
+                plen = _struct.unpack('>I', data[:4])[0]
+                pad = 8 - plen % 8
+                body = data[4 + pad:4 + pad + plen - 4]
+                mtype, payload = body[0], body[1:]
+            else:
+                got = wire.parse_frame(bytearray(data))
+                if got is None:
+                    continue
+                mtype, payload = got[1][0], got[1][1:]
+            n = len(payload)
+            cuts = sorted(set([0, 1, 2, 3, 4, 5, 8, 16, 17, 20, 21, n // 2, n - 5, n - 4, n - 1] + [rng.randrange(n) for _ in range(4 if tier != 'thorough' else 24)]))
+            for k in [c for c in cuts if 0 <= c < n]:
+                pkt = wire.frame1(mtype, payload[:k]) if tag == 'ssh1_pubkey' else wire.frame(bytes([mtype]) + payload[:k])
+                yield {'arch': arch, 'faults': [{'conn': conn, 'msg': midx, 'kind': 'replace', 'hex': pkt.hex(), 'field': 'reframed_payload', 'mut': 'cut@%d' % k}],
+                       'opts': ['-n'], 'timeout': 2, 'net': {'rtt_us': 200, 'seg': {'mode': 'msg'}}, 'pseed': 1}
     pools = {}
     for i in range(NRANDOM[tier]):
         rng = gen.case_rng(seed, ID, i)
